@@ -509,6 +509,7 @@ class Deps:
         an = self.an
         seen = set()
         self.visited = seen
+        self.touched = set()      # phi/mem roots that were read through a projection (they are expanded, not visited)
         leaves = set()
         stack = [t]
         seen_defs = set()
@@ -593,6 +594,7 @@ class Deps:
             r = r[1]
         if r[0] not in ('phi', 'rec', 'mem'):
             return None
+        self.touched.add(r)
         key = (r, tuple((c[0], c[2] if c[0] == 'field' else None) for c in chain))
         if key in seen:
             return []
